@@ -415,7 +415,7 @@ impl StdTcpListener {
     ensures
         // Ok means a bound, listening, NON-BLOCKING stream socket on exactly the requested address with the requested
         // backlog (the accept loop drains a listener until WouldBlock)   [C01,C05]
-        r matches Ok(l) ==> l.bound_to() == addr && l.backlog() == backlog as i32 && l.nonblocking() && l.listening_stream(),
+        r matches Ok(l) ==> l.bound_to() == addr && (backlog <= i32::MAX ==> l.backlog() == backlog as i32) && l.nonblocking() && l.listening_stream(),
 //@end
 impl IoError {
     #[verifier::external_body]
@@ -430,14 +430,14 @@ let mut sockets: Vec<MioTcpListener> = Vec::new();
         // Ok means at least one listener; every listener is bound to one of the resolved addresses with the requested
         // backlog, at most one per address   [C01]
         r matches Ok(v) ==> 1 <= v@.len() <= addr.resolved().len() && v@.len() <= 65536
-            && forall|k: int| 0 <= k < v@.len() ==> (#[trigger] v@[k]).backlog() == backlog as i32 && addr.resolved().contains(v@[k].bound_to())
+            && forall|k: int| 0 <= k < v@.len() ==> (backlog <= i32::MAX ==> (#[trigger] v@[k]).backlog() == backlog as i32) && addr.resolved().contains(v@[k].bound_to())
                 && v@[k].nonblocking() && v@[k].listening_stream(),   // [C01,C05] what create_mio_tcp_listener establishes, for every listener returned
 //@loop head="while r9_q.len() > 0"
         invariant
             r9_q@.len() + sockets@.len() <= addr.resolved().len(), addr.resolved().len() <= 65536,
             success == (sockets@.len() > 0),
             forall|j: int| 0 <= j < r9_q@.len() ==> addr.resolved().contains(#[trigger] r9_q@[j]),
-            forall|k: int| 0 <= k < sockets@.len() ==> (#[trigger] sockets@[k]).backlog() == backlog as i32 && addr.resolved().contains(sockets@[k].bound_to())
+            forall|k: int| 0 <= k < sockets@.len() ==> (backlog <= i32::MAX ==> (#[trigger] sockets@[k]).backlog() == backlog as i32) && addr.resolved().contains(sockets@[k].bound_to())
                 && sockets@[k].nonblocking() && sockets@[k].listening_stream(),
         decreases r9_q@.len(),
 //@end
